@@ -534,12 +534,18 @@ func (g *Gen) fieldStep(env *Env, cur Val, i int) Val {
 		}
 		h := g.fieldHeap(st, i)
 		term := fmt.Sprintf("(select %s %s)", g.heapGet(env.st, h), cur.S)
-		if g.inQuant == 0 && g.mode == ModeInt && isIntType(f.Type()) && g.cur != nil {
-			// a well-typed heap holds only values of the field's type
+		if g.inQuant == 0 && g.cur != nil {
+			// a well-typed heap holds only values of the field's type; references in it denote allocated objects
 			key := "fldrange:" + term
 			if !g.declared[key] {
 				g.declared[key] = true
-				g.asm = append(g.asm, g.inRange(f.Type(), term))
+				if g.mode == ModeInt && isIntType(f.Type()) {
+					g.asm = append(g.asm, g.inRange(f.Type(), term))
+				} else if !isIntType(f.Type()) {
+					if r := g.rangeOf(f.Type(), term, env.st); r != "true" {
+						g.asm = append(g.asm, r)
+					}
+				}
 			}
 		}
 		return Val{T: f.Type(), S: term}
